@@ -409,6 +409,11 @@ class Call:
             out.append("falsy:data_component_exactly_0_everywhere")
         if self.weights is not None and any(np.all(w == 1) for w in self.weights):
             out.append("falsy:weights_exactly_1")
+        if self.weights is not None and len(self.weights) > 1:
+            zeros = np.array([w == 0 for w in self.weights])
+            if (zeros.any(axis=0) & ~zeros.all(axis=0)).any():
+                out.append("weight_exactly_0_in_some_but_not_all_components")
+                out.append("weight_exactly_0_in_some_but_not_all_components:%d_components" % len(self.weights))
         if self.weights is not None:
             zero_everywhere = np.all([w == 0 for w in self.weights], axis=0)
             if zero_everywhere.any():
@@ -1068,3 +1073,32 @@ def same_output(a, b):
         return isinstance(a, tuple) and isinstance(b, tuple) and len(a) == len(b) and all(same_output(x, y) for x, y in zip(a, b))
     a, b = np.asarray(a), np.asarray(b)
     return a.dtype == b.dtype and a.shape == b.shape and bool(np.array_equal(a, b, equal_nan=a.dtype.kind == "f"))
+
+
+def per_component_zero_weights(rng, east, north, kwargs, ncomp):
+    """
+    Per-component weights in which 10-30 % of the points have weight exactly 0.0 in ONE component and a positive weight in the
+    others (different points in different components). Within each component every reference block keeps a positive weight.
+    """
+    geo = Geometry(east, north, kwargs.get("spacing"), kwargs.get("shape"), kwargs.get("adjust", "spacing"), kwargs.get("region"))
+    clo, chi = geo.east.locate(east)
+    rlo, rhi = geo.north.locate(north)
+    sure = (clo == chi) & (rlo == rhi)
+    label = rlo * geo.east.n + clo
+    weights = []
+    taken = np.zeros(east.size, dtype=bool)  # a point is zeroed in at most ncomp - 1 components: here in exactly one
+    for _ in range(ncomp):
+        w = 10 ** rng.uniform(-2, 2, east.size)
+        positive = np.ones(east.size, dtype=bool)
+        for k in rng.permutation(east.size)[: max(1, int(rng.uniform(0.1, 0.3) * east.size))]:
+            k = int(k)
+            if taken[k] or not sure[k]:
+                continue
+            mates = sure & positive & (label == label[k])
+            mates[k] = False
+            if mates.any():
+                positive[k] = False
+                taken[k] = True
+        w[~positive] = 0.0
+        weights.append(w)
+    return weights
